@@ -37,7 +37,54 @@ def g_of(w, e):
     return 3 * (e4 - w) ** 2 / ((e4 - e1) * (e4 - e2) * (e4 - e3))
 
 
+def _M(i, k, w, t):
+    """Curry-Schoenberg B-spline of order k on knots t[i..i+k], unit integral; zero-width pieces vanish (tied knots)."""
+    if k == 1:
+        return 1.0 / (t[i + 1] - t[i]) if t[i] <= w < t[i + 1] else 0.0
+    d = t[i + k] - t[i]
+    if d == 0:
+        return 0.0
+    return k / (k - 1.0) * ((w - t[i]) * _M(i, k - 1, w, t) + (t[i + k] - w) * _M(i + 1, k - 1, w, t)) / d
+
+
+def g_exact(w, e):
+    """Density of values of the linear interpolant over the tetrahedron = quadratic B-spline with the vertex values as
+    knots (Curry-Schoenberg); valid with tied vertex values (not all four equal); right-continuous at the knots."""
+    t = sorted(float(x) for x in e)
+    return _M(0, 3, float(w), t)
+
+
+def n_exact(w, e):
+    """Volume fraction below w: the integral of g_exact, by 2-point Gauss quadrature on each knot interval (exact for
+    the piecewise quadratic)."""
+    t = sorted(float(x) for x in e)
+    if w <= t[0]:
+        return 0.0
+    if w >= t[3]:
+        return 1.0
+    tot = 0.0
+    for a, b in zip(t[:-1], t[1:]):
+        b = min(b, w)
+        if b <= a:
+            continue
+        m, h = 0.5 * (a + b), 0.5 * (b - a)
+        for x in (-1 / 3 ** 0.5, 1 / 3 ** 0.5):
+            tot += h * _M(0, 3, m + h * x, t)
+    return tot
+
+
 def selfcheck():
+    import itertools
+
+    for a in itertools.product([0, 0.003, 2.0, 2.001, 1, 3], repeat=4):
+        if len(set(a)) == 1:
+            continue
+        for w in [-0.5, 0.001, 0.0015, 0.5, 1.3, 2.0005, 2.0 + 1e-6, 2.5, 3.5]:
+            if min(abs(w - np.array(a))) < 1e-4:
+                continue  # the perturbed closed form is inaccurate within ~1e3 perturbations of a vertex value
+            p = np.array(a) + np.arange(4) * 1e-9
+            assert abs(n_exact(w, a) - n_of(w, p)) < 2e-5, (a, w, n_exact(w, a), n_of(w, p))
+            assert abs(g_exact(w, a) - g_of(w, p)) < 2e-5 * max(1.0, g_of(w, p)), (a, w, g_exact(w, a), g_of(w, p))
     rng = np.random.default_rng(0)
     for _ in range(50):
         e = np.sort(rng.uniform(0, 1, 4))
